@@ -9,6 +9,9 @@ pub enum Focus {
     Any,
     /// comment at (almost) every gap
     Comments,
+    /// as Comments, and some of the comments are `@typstyle off` directives (C06 only: whatever
+    /// follows a directive is copied verbatim, which must not cost a comment)
+    CommentsOff,
     /// long prose lines, inline elements, lists
     Prose,
     Math,
@@ -43,6 +46,8 @@ pub struct G<'t, 'd> {
 const IDENTS: &[&str] = &["a", "b", "c", "x", "y", "foo", "bar-baz", "it", "n", "item_1", "α", "long-identifier-name", "v"];
 const FUNCS: &[&str] = &["f", "g", "text", "box", "rect", "foo", "calc.max", "table", "grid", "a.b.c"];
 const WORDS: &[&str] = &[
+    "page\u{a0}12", "a\u{202f}b", "全\u{3000}角", "thin\u{2009}sp", "em\u{2003}q",
+
     "lorem", "ipsum", "dolor", "sit", "amet,", "consectetur", "x", "The", "quick", "brown", "fox.", "naïve", "字", "טקסט",
     "e\u{301}", "😀", "a-b", "don't", "1st", "2)", "end.", "(paren)", "semi;", "co:lon", "a/b", "100%", "a=b", "x-", "c+",
 ];
@@ -60,7 +65,7 @@ pub fn exotic_mode() -> bool {
 pub fn document(t: &mut Tape, focus: Focus) -> String {
     let budget = 6 + t.below(60) as i32;
     let (cmt, ml) = match focus {
-        Focus::Comments => (90, 70),
+        Focus::Comments | Focus::CommentsOff => (90, 70),
         Focus::Breaks => (40, 200),
         _ => (if t.chance(96) { 40 } else { 6 }, 50),
     };
@@ -100,13 +105,18 @@ impl<'t, 'd> G<'t, 'd> {
             "/* trailing blanks   \n   here */",
             "/* t   */",
         ];
+        // rarely a directive: whatever follows is then copied verbatim, which must not cost a comment
+        if self.focus == Focus::CommentsOff && self.t.chance(14) {
+            self.p("/* @typstyle off */");
+            return;
+        }
         let s = self.t.pick(B);
         self.p(s);
     }
 
     fn line_comment(&mut self) {
         const L: &[&str] = &["// c", "//", "// long comment text here", "//c", "// /* x */", "// 注", "// trailing blanks   ", "// t \t"];
-        let s = self.t.pick(L);
+        let s = if self.focus == Focus::CommentsOff && self.t.chance(14) { "// @typstyle off" } else { self.t.pick(L) };
         self.p(s);
         self.p("\n");
     }
@@ -582,7 +592,24 @@ impl<'t, 'd> G<'t, 'd> {
             self.leaf();
             return;
         }
-        match self.t.weighted(&[10, 4, 3, 3, 2, 5, 5, 3, 3, 2, 2, 2, 1, 1, 1]) {
+        match self.t.weighted(&[10, 4, 3, 3, 2, 5, 5, 3, 3, 2, 2, 2, 1, 1, 1, 1]) {
+            15 => {
+                // an import / include as a parenthesised expression: line breaks (and with them line
+                // comments) are allowed at every gap of the statement
+                self.p("(");
+                self.cont += 1;
+                self.osp();
+                if self.t.chance(200) {
+                    self.import();
+                } else {
+                    self.p("include");
+                    self.sp();
+                    self.p("\"x.typ\"");
+                }
+                self.osp();
+                self.cont -= 1;
+                self.p(")");
+            }
             0 => self.leaf(),
             1 => self.array(d),
             2 => self.dict(d),
@@ -1061,10 +1088,21 @@ impl<'t, 'd> G<'t, 'd> {
                     _ => {}
                 }
                 self.math_seq(d + 1);
-                match if self.t.chance(200) { edge } else { self.t.below(3) } {
-                    1 => self.p(" "),
-                    2 => self.newline_indent(),
-                    _ => {}
+                if self.exotic && self.t.chance(self.cmt / 4) {
+                    // a comment as the last thing before the closing delimiter
+                    self.p(" ");
+                    if self.t.chance(170) {
+                        self.line_comment();
+                        self.pad_indent();
+                    } else {
+                        self.block_comment();
+                    }
+                } else {
+                    match if self.t.chance(200) { edge } else { self.t.below(3) } {
+                        1 => self.p(" "),
+                        2 => self.newline_indent(),
+                        _ => {}
+                    }
                 }
                 self.p(c);
             }
@@ -1395,7 +1433,7 @@ impl<'t, 'd> G<'t, 'd> {
         let deep = self.budget <= 0 || d > 5;
         let (wm, wc) = match self.focus {
             Focus::Math => (30, 6),
-            Focus::Code | Focus::Breaks | Focus::Comments => (3, 24),
+            Focus::Code | Focus::Breaks | Focus::Comments | Focus::CommentsOff => (3, 24),
             Focus::Prose => (3, 6),
             Focus::Literals => (4, 16),
             _ => (6, 12),
@@ -1556,7 +1594,7 @@ impl<'t, 'd> G<'t, 'd> {
         self.budget -= 1;
         let (wl, ws) = match self.focus {
             Focus::Prose => (10, 2),
-            Focus::Code | Focus::Comments | Focus::Breaks | Focus::Imports | Focus::Literals => (2, 14),
+            Focus::Code | Focus::Comments | Focus::CommentsOff | Focus::Breaks | Focus::Imports | Focus::Literals => (2, 14),
             _ => (5, 6),
         };
         match self.t.weighted(&[10, 3, wl, ws, 2, 2, 1]) {
